@@ -646,7 +646,7 @@ Proof.
   assert (X1 : (inject_Z x <= inject_Z N)%Q) by (rewrite <- Zle_Qle; lia).
   set (u := inject_Z x) in *. set (n := inject_Z N) in *.
   destruct (Qlt_le_dec s 0) as [Neg | Pos].
-  - assert (s * n <= s * u)%Q by (rewrite (Qmult_comm s n), (Qmult_comm s u); apply Qmult_le_compat_nonpos_r || idtac; nra).
+  - assert (s * n <= s * u)%Q by nra.
     assert (s * u <= 0)%Q by nra.
     destruct (qmin_spec (s * 0 + t) (s * n + t)) as [[? ->] | [? ->]];
       destruct (qmax_spec (s * 0 + t) (s * n + t)) as [[? ->] | [? ->]]; lra.
@@ -717,7 +717,6 @@ Proof.
   intros Hd Hs Eg Hdy Hdx Hsy Hsx Oy Ox Cx Cy X1 X2 Y1 Y2.
   destruct (qmax_close _ _ _ _ delta (Cx _ (or_introl eq_refl)) (Cx _ (or_intror eq_refl))) as [Mx1 Mx2].
   destruct (qmax_close _ _ _ _ delta (Cy _ (or_introl eq_refl)) (Cy _ (or_intror eq_refl))) as [My1 My2].
-  fold (mhi (a_sx A0) (a_tx A0) (ax_off (t_x dst) dx) (ax_off (t_x dst) (dx + 1))) in Mx1.
   unfold mlo, mhi in *.
   assert (D0 : (0 <= delta)%Q).
   { eapply Qle_trans; [apply Qabs_nonneg | apply (Cx _ (or_introl eq_refl))]. }
